@@ -9,6 +9,7 @@ CONSTANTS
   MaxOps = 4
   Faults = {}
   AllowGap = FALSE
+  Dups = FALSE
   AllowRestart = FALSE
   AllowReorg = FALSE
   Rollups = {1, 3}
